@@ -236,6 +236,17 @@ func (s *nst) assumeLe0(e linexp) {
 	// direct two-variable form
 	if x, y, k, ok := diffForm(e); ok {
 		s.z.add(x, y, -k)
+		// x <= y - k where y is (by an equality) a difference A - B + k2, e.g. the length of Input[B:]:
+		// remember the sum x + B as a ghost bounded by A, so that a later `cursor = B + x` is bounded too
+		if strings.HasPrefix(x, "v:") && y != "" && (strings.HasPrefix(y, "len:") || strings.HasPrefix(y, "v:")) {
+			r := s.k.reduce(lvar(y))
+			if a, b, k2, ok2 := diffForm(r); ok2 && a != "" && b != "" && a != x && b != x {
+				// named after the frame of x so that it is dropped when that frame returns
+				g := "g:" + strings.TrimPrefix(x, "v:") + ":sum:" + b
+				s.assign(g, lvar(x).plus(lvar(b)), nil)
+				s.z.add(g, a, k2-k)
+			}
+		}
 		return
 	}
 	r := s.k.reduce(e)
@@ -1133,6 +1144,25 @@ func (e *absEngine) call(fr *frame, st *nst, call *ssa.Call) {
 		ln := "len:" + fr.ctx + ":" + call.Name()
 		st.forget(ln)
 		st.z.add("", ln, -1) // at least one element for a non-empty separator
+		return
+	case "strings.IndexByte", "strings.IndexRune", "strings.IndexFunc", "strings.IndexAny", "strings.LastIndexByte", "strings.LastIndexFunc", "strings.LastIndexAny",
+		"bytes.IndexByte", "bytes.IndexRune", "bytes.IndexFunc", "bytes.IndexAny":
+		// -1 <= r <= len(s) - 1
+		st.forget(name)
+		st.z.add("", name, 1)
+		st.assumeLe(lvar(name).minus(e.lenLin(fr, st, call.Call.Args[0])).addK(1))
+		return
+	case "strings.Index", "strings.LastIndex", "bytes.Index", "bytes.LastIndex":
+		// -1 <= r <= len(s)
+		st.forget(name)
+		st.z.add("", name, 1)
+		st.assumeLe(lvar(name).minus(e.lenLin(fr, st, call.Call.Args[0])))
+		return
+	case "strings.TrimSpace", "strings.TrimLeft", "strings.TrimRight", "strings.Trim", "strings.TrimPrefix", "strings.TrimSuffix":
+		ln := "len:" + fr.ctx + ":" + call.Name()
+		st.forget(ln)
+		st.z.add("", ln, 0)
+		st.assumeLe(lvar(ln).minus(e.lenLin(fr, st, call.Call.Args[0])))
 		return
 	case "unicode/utf8.RuneCountInString":
 		st.forget(name)
